@@ -1092,12 +1092,16 @@ class Evaluator(object):
                             continue
                         s2 = st.fork()
                         add_assume(s2, c)
+                        if myloop is not None:
+                            self.specialise(s2, fr, c)
                         for o in self.run(s2, fr, tb, sub_stops, pred=bb):
                             outs.append(Out(T.and1([c, o.cond]), o.st, o.how, o.at))
                     cother = T.and1([T.bnot(c) for c in conds])
                     if cother is not T.FALSE and not self._is_unreachable_block(blocks, other):
                         s2 = st.fork()
                         add_assume(s2, cother)
+                        if myloop is not None:
+                            self.specialise(s2, fr, cother)
                         for o in self.run(s2, fr, other, sub_stops, pred=bb):
                             outs.append(Out(T.and1([cother, o.cond]), o.st, o.how, o.at))
                 finally:
@@ -1120,6 +1124,43 @@ class Evaluator(object):
                 bb = join
             else:
                 raise Unsupported("terminator %s in %s" % (k, body["key"]))
+
+    def specialise(self, st, fr, c):
+        """inside a loop, on the arm of a symbolic branch taken under condition c: frame locals of the form ite(c, a, b) (such as
+        the position of an iterator whose `next` returned a symbolic Some/None) become the arm's value, so that the next test
+        of the same loop can be decided by constants"""
+        if not isinstance(c, T.T) or c.op == "const":
+            return
+        nc = T.bnot(c)
+
+        def cof(v, depth=0):
+            if isinstance(v, T.T):
+                if v.op == "ite":
+                    if v.args[0] is c:
+                        return v.args[1]
+                    if v.args[0] is nc:
+                        return v.args[2]
+                elif v.op == "aff":
+                    for a in v.args:
+                        if a is c:
+                            return T.subst(v, {c: T.TRUE})
+                        if a is nc:
+                            return T.subst(v, {nc: T.FALSE})
+                        if a.op == "ite" and (a.args[0] is c or a.args[0] is nc):
+                            return T.subst(v, {a: a.args[1] if a.args[0] is c else a.args[2]})
+                return v
+            if isinstance(v, Struct) and depth < 3 and len(v.fields) <= 8:
+                fs = [cof(f, depth + 1) for f in v.fields]
+                if any(a is not b for a, b in zip(fs, v.fields)):
+                    return Struct(fs)
+            return v
+        for l in fr.locs:
+            v = st.objs.get(l)
+            if v is None:
+                continue
+            nv = cof(v)
+            if nv is not v:
+                st.objs[l] = nv
 
     # --------------------------------------------------------------- loops
     def innermost_loop(self, fr, bb):
